@@ -164,7 +164,7 @@ func (ex *Exec) zero(t types.Type) Value {
 	case *types.Pointer:
 		return Ptr{}
 	case *types.Slice:
-		return SliceV{}
+		return ex.nilSlice()
 	case *types.Map:
 		return MapV{}
 	case *types.Chan:
